@@ -12,3 +12,33 @@ Print Assumptions C12_no_blocking_site_reachable_from_reads.
 Theorem C12_graph_not_vacuous : read_entries_present = true /\ writers_do_lock = true.
 Proof. split; [exact read_entries_present_true | exact writers_do_lock_true]. Qed.
 Print Assumptions C12_graph_not_vacuous.
+
+(* ---- reads never wait: the unbounded theorem over the list-bin protocol model ----
+   From ANY reachable configuration of Model/BinProto.v - other threads suspended anywhere, also
+   inside critical sections holding bin locks or half-way through an unlink - a lookup in
+   progress, run ALONE, returns after at most |heap| + 2 of its own steps, is enabled at each of
+   them (never blocked) and changes neither a lock nor the heap nor a bin.  It rests on the
+   invariant that `next` pointers only lead to larger addresses (no cycle can be built, not even
+   through unlinked nodes).  The model is tied to the code by the step conformance of C01. *)
+From Flurry Require Import Model.BinProto Proofs.BinProtoProofs Proofs.BinProtoReads.
+
+Theorem C12_next_pointers_increase : forall khash nbins progs sched a b,
+  (0 < nbins)%nat ->
+  let c := run khash nbins (init nbins progs) sched in
+  (a < length (heap (sh c)))%nat -> cnext (cell_at (sh c) a) = Some b ->
+  (a < b /\ b < length (heap (sh c)))%nat.
+Proof. exact next_increases. Qed.
+Print Assumptions C12_next_pointers_increase.
+
+Theorem C12_get_completes_alone : forall khash nbins progs sched t k,
+  (0 < nbins)%nat ->
+  let c := run khash nbins (init nbins progs) sched in
+  cur (get_thr c t) = Some (OGet k) ->
+  exists n, (n <= length (heap (sh c)) + 2)%nat /\
+    calls_done (solo khash nbins c t n) t = S (calls_done c t) /\
+    (forall m, (m < n)%nat -> enabled (solo khash nbins c t m) t = true) /\
+    (forall m, (m <= n)%nat -> locks (sh (solo khash nbins c t m)) = locks (sh c) /\
+                               heap (sh (solo khash nbins c t m)) = heap (sh c) /\
+                               bins (sh (solo khash nbins c t m)) = bins (sh c)).
+Proof. exact get_completes_alone. Qed.
+Print Assumptions C12_get_completes_alone.
